@@ -71,7 +71,7 @@ def act_setup(ctx):
         return instance
 
     calls = {
-        "subclass_spec_as_namespace": lambda c, a, k: a[0],
+        "subclass_spec_as_namespace": lambda c, a, k: (c.event("normalise", a[0]), a[0])[1],
         "import_object": lambda c, a, k: (c.event("import", a[0]), sub_cls)[1] if a[0] == "pkg.Sub" else Rec("class " + str(a[0])),
         "ActionTypeHint.get_class_parser": get_class_parser,
         "discard_init_args_on_class_path_change": lambda c, a, k: c.event("discard-check", a[1], a[2]),
@@ -94,7 +94,7 @@ def act_setup(ctx):
     env = {"value": value, "serialize": mode == "serialize", "instantiate_classes": mode.startswith("instantiate"), "sub_add_kwargs": sub_add_kwargs, "prev_val": prev, "skip_args": 0,
            "partial_classes": mode == "instantiate-partial"}
     return Setup(env=env, calls=calls, consts=consts, symcall=symcall, cms={"suppress": suppress_cm()},
-                 data=dict(dumped_text=dumped_text, loaded=loaded, caller_dump_kwargs=caller_dump_kwargs, init_args=init_args, init_given=bool(init_store), mode=mode, dk_kind=dk_kind, prev_kind=prev_kind, value=value, store=store, init_store=init_store, sub_cls=sub_cls, validated=validated, instantiated=instantiated,
+                 data=dict(prev=prev, dumped_text=dumped_text, loaded=loaded, caller_dump_kwargs=caller_dump_kwargs, init_args=init_args, init_given=bool(init_store), mode=mode, dk_kind=dk_kind, prev_kind=prev_kind, value=value, store=store, init_store=init_store, sub_cls=sub_cls, validated=validated, instantiated=instantiated,
                            instance=instance, a_val=a_val, known_val=known_val, extra_val=extra_val, prev_extra=prev_extra))
 
 
@@ -102,6 +102,11 @@ def act_post(ctx, st, result):
     d = st.data
     ev = ctx.events
     tag = f"[{d['mode']},dict_kwargs:{d['dk_kind']},prev:{d['prev_kind']}{'' if d['init_given'] else ',no-init_args'}]"
+    norm = [e[1] for e in ev if e[0] == "normalise"]
+    ctx.oblige("post", "the-spec(and the previous one, when given)-are-first-brought-to-the-namespace-form" + tag, any(x is d["value"] for x in norm) and (d["prev"] is None or any(x is d["prev"] for x in norm)))
+    dc = [e for e in ev if e[0] == "discard-check"]
+    ctx.oblige("post", "init_args-of-a-changed-class-are-discarded-from-(previous, new)-before-anything-is-validated-or-built" + tag,
+               len(dc) == 1 and dc[0][1] is d["prev"] and dc[0][2] is d["value"] and not [e for e in ev[: ev.index(dc[0])] if e[0] in ("validate-init_args", "construct", "instantiate-nested", "nested-dump")])
     ctx.oblige("post", "the-parser-is-the-one-built-for-the-class-named-by-class_path" + tag, [e[1] for e in ev if e[0] == "class-parser-for"] == [d["sub_cls"]] and ("import", "pkg.Sub") in ev)
     if d["mode"] == "parse":
         val = [e for e in ev if e[0] == "validate-init_args"]
